@@ -111,8 +111,12 @@ def bi_write_fmt(eng, st, args, d, r, callee=''):
     choice = eng.render_choice(p.e)       # z3 BV8 expr
     forks = []
     for k, chs in enumerate(RENDER_TABLE):
-        chunks = VecV(S(len(chs), 'usize'), len(chs), [PyStr(t) for t in chs])
-        forks.append((choice == k, ('chunks', chunks)))
+        # a piece is a str chunk, or ('c', ch): a single char handed to fmt::Write::write_char
+        n_ = len(chs)
+        strs = VecV(S(n_, 'usize'), n_, [PyStr(t if isinstance(t, str) else '') for t in chs])
+        chars = VecV(S(n_, 'usize'), n_, [S(ord(t[1]) if not isinstance(t, str) else 32, 'char') for t in chs])
+        isch = VecV(S(n_, 'usize'), n_, [S(not isinstance(t, str), 'bool') for t in chs])
+        forks.append((choice == k, ('pieces', (strs, chars, isch))))
     return ('fork_call', forks, w)
 
 def bi_slice_len(eng, st, args, d, r, callee=''):
